@@ -18,7 +18,10 @@ Events == ndJsonDeserialize(IOEnv.TRACE_FILE)
 VARIABLES l, endian
 vars == <<l, endian>>
 
-TypeOf(ev) == IF "type" \in DOMAIN ev THEN ev.type ELSE Builtin(ev.name)
+\* a built-in name can also be used as name[n] or name[None] (null-terminated): ev.form is the length form
+TypeOf(ev) == IF "type" \in DOMAIN ev THEN ev.type
+              ELSE IF "form" \in DOMAIN ev THEN [k |-> "arr", elem |-> Builtin(ev.name), len |-> ev.form]
+              ELSE Builtin(ev.name)
 Mode(ev) == [endian |-> endian, align |-> ev.align, ptr |-> ev.ptr]
 
 ReadClauses(ev) ==
@@ -28,7 +31,7 @@ ReadClauses(ev) ==
      ELSE (IF r.ok THEN (IF ev.status = "ok" THEN {} ELSE {"status"}) ELSE (IF ErrMatches(ev.status, r.err) THEN {} ELSE {"status"}))
           \cup (IF r.ok /\ ev.status = "ok" /\ ev.v # r.v THEN {"value"} ELSE {})
           \cup (IF r.ok /\ ev.status = "ok" /\ ev.pos # r.pos THEN {"pos"} ELSE {})
-          \cup (IF ~("type" \in DOMAIN ev) /\ (ev.size # SizeOf(t, Mode(ev)) \/ ev.alignment # AlignOf(t, Mode(ev))) THEN {"builtin-size"} ELSE {})
+          \cup (IF ~("type" \in DOMAIN ev) /\ ~("form" \in DOMAIN ev) /\ (ev.size # SizeOf(t, Mode(ev)) \/ ev.alignment # AlignOf(t, Mode(ev))) THEN {"builtin-size"} ELSE {})
 WriteClauses(ev) ==
   LET t == TypeOf(ev) IN
   IF ~Fits(t, Mode(ev), ev.v) THEN (IF ev.status = "ok" THEN {"reject"} ELSE {})
